@@ -39,6 +39,12 @@ CHECKS = {
     "C09": dict(level="fault_enumeration", technique="runtime monitoring: double-entry conservation monitor (runtime byte account vs shadow ledger of live objects) + allocation-failure sweep over the recorded allocation event list",
                 text="for hand-written and generated programs the allocation event list of an unlimited run gives every allocation point; a size limit is placed so that the refusal lands on each of them: the outcome is AllocationLimitReached or the unlimited result, the peak never exceeds the limit without a violation, passing is monotone in the limit, and after dropping everything the account is back at its baseline with zero live objects - also after allocation, depth, call, search, recursion, permission and output violations; recorded sizes are at least the payload; the account equals the ledger at quiescent points",
                 note="quick tier samples 40 allocation points per program, thorough uses all; payload lower bounds are conservative (own payload only)"),
+    "C11": dict(level="exploration", technique="runtime monitoring: recording test doubles for writer / clock / rng (every touch counted) + permission-check event log; exhaustive over the 64 permission assignments for the direct path",
+                text="held on the executions observed: for all 64 explicit allow/forbid assignments plus the defaults and every effectful entry point (display x2, debug, now, random, sample x2, shuffle, random_choices x2, distribution sample/random x4, regex, sleep x2) reached directly and through 13 other paths (wrapper, closure, map/filter/reduce/sort callbacks, lazy element, default parameter, partial, struct field, generator, if branch, exported function): a forbidden effect ends in PermissionError naming it with no touch of any injected double, an allowed one is preceded by a granted check and touches only its own double",
+                note="regex compilation and sleeping have no double: judged by outcome and the check event; sleep runs with 0 seconds"),
+    "C06": dict(level="exploration", technique="runtime monitoring: error-injection probes over the tree's own signature table (every overload x position) and construction forms; limit sweep over wrapped computations with a model-free outcome oracle",
+                text="held on the executions observed: (A) for every standard-library overload and argument position (pairs of positions in the thorough tier) an injected error is the result - the leftmost one - except at documented short-circuit / inspection positions; user functions, lambdas, callables, struct/union/tuple/array construction, collection insertion, f-strings likewise; no materialised collection contains an error. (B) a computation that trips a call / depth / search / recursion / size / permission / output limit, wrapped in 30 error-handling and higher-order forms, ends in that violation or in exactly the unlimited result for every placed limit value",
+                note="positions exempted are exactly those the book documents; a foreign error is only accepted when the same call without injection yields it too"),
 }
 REASON_PENDING = "check under construction in this round (not yet claimed)"
 
